@@ -27,9 +27,10 @@ try:
         res["demo_with"] = r1.returncode
         res["demo_with_tail"] = (r1.stdout + r1.stderr)[-300:]
         if suite:
-            s = subprocess.run(["/venv/bin/python", "-m", "pytest", "-q", "-p", "no:cacheprovider", "--timeout=900", "--continue-on-collection-errors"], cwd=wt, env=env, capture_output=True, text=True, timeout=7200)
+            s = subprocess.run(["/venv/bin/python", "-m", "pytest", "-q", "-rf", "-p", "no:cacheprovider", "--timeout=900", "--continue-on-collection-errors"], cwd=wt, env=env, capture_output=True, text=True, timeout=7200)
             res["suite_rc"] = s.returncode
             res["suite_tail"] = s.stdout.strip().splitlines()[-1] if s.stdout.strip() else ""
+            res["suite_failed"] = [l for l in s.stdout.splitlines() if l.startswith("FAILED")][:10]
     else:
         res["apply_err"] = a.stderr[:300]
 finally:
